@@ -28,11 +28,19 @@ def cases(tier, seed):
                 untied = all(len(s) == 1 for r, _ in bl for s in r)
                 if rule in ("STV", "STV1", "IRV", "SequentialRCV", "Alaska", "CondoBorda") and not untied:
                     continue
-                if nb == 3 and rule not in ("STV", "STV1", "SequentialRCV", "Alaska", "TopTwo"):
+                if nb == 3 and rule not in ("STV", "STV1", "SequentialRCV", "Alaska", "TopTwo", "CondoBorda"):
                     continue
-                if tier == "quick" and nb >= 2 and i % 4:
+                if tier == "quick" and nb >= 2 and i % 4 and not (nb == 3 and rule in ("TopTwo", "CondoBorda", "Alaska") and i % 2 == 0):
                     continue
                 cs.append((rule, cands, bl, 1 + i % 3, ("random", "borda", "first_place")[i % 3]))
+    # runoff / stage ties that only appear after transfers: 3 ballots with weights up to 3
+    k = 0
+    for cands, bl in gen.profiles_exhaustive(3, 3, [F(1), F(2), F(3)]):
+        k += 1
+        if k % (9 if tier == "quick" else 2):
+            continue
+        for rule in ("TopTwo", "Alaska"):
+            cs.append((rule, cands, bl, 2, ("random", "borda", "first_place")[k % 3]))
     if tier == "thorough":
         rng = random.Random(seed)
         for cands, bl in gen.profiles_random(rng, 2500, ncands_range=(3, 5), nballots_range=(2, 5), weights=(1, 1, 2)):
@@ -121,12 +129,9 @@ def check_case(case):
                         status[c] = "X"
                     else:
                         status[c] = "R"
-                if len(set(status.values())) == 1 and rule not in ("TopTwo", "Alaska"):
-                    st = next(iter(status.values()))
-                    groups = s.elected if st == "E" else (s.eliminated if st == "X" else s.remaining)
-                    same_group = any(tied <= g for g in groups)
-                    if same_group:
-                        viol("decision-did-not-depend-on-order", f"round {r}: tiebreak on {set(tied)} recorded but the whole set stayed together in {groups}")
+                if len(set(status.values())) == 1 and len(tied) > 1:
+                    # every member met the same fate in this round: no decision depended on their order
+                    viol("decision-did-not-depend-on-order", f"round {r}: tiebreak on {set(tied)} recorded but all of its members are {next(iter(status.values()))} in this round")
                 # (c) the round obeys the resolution
                 pos = {c: i for i, c in enumerate(order)}
                 rank = {"E": 0, "R": 1, "X": 2}
@@ -136,7 +141,8 @@ def check_case(case):
                             viol("round-disobeys-resolution", f"round {r}: resolution {order} but {a} is {status[a]} and {b} is {status[b]}")
                 # within a group the listed order follows the resolution where the round does not re-tally
                 # (single-shot rules); STV-family rounds re-order `remaining` by the new tallies
-                for grp in ((s.elected, s.remaining) if rule in ("Plurality", "SNTV", "Borda", "CondoBorda", "Approval") else (s.elected,)):
+                first_stage = rule in ("TopTwo", "Alaska") and r == 1  # the plurality stage does not re-order the finalists
+                for grp in ((s.elected, s.remaining) if rule in ("Plurality", "SNTV", "Borda", "CondoBorda", "Approval") or first_stage else (s.elected,)):
                     seq = [c for g in grp if len(g) == 1 for c in g if c in tied]
                     if seq != sorted(seq, key=lambda c: pos[c]):
                         viol("round-disobeys-resolution", f"round {r}: order of {seq} in {grp} contradicts resolution {order}")
